@@ -27,7 +27,9 @@ extern "C" __attribute__((used, noinline)) const char* __asan_default_options() 
 }
 #endif
 
+#ifndef SIM_THREADS
 extern "C" void sonic_verif_sim_point(int) {}  // scheduler yield points are only used by the thread harness
+#endif
 
 static uint64_t* g_status = nullptr;   // [0]=current run, [1]=runs done, [2]=current op (best effort)
 static bool g_replay_mode = false;
@@ -85,7 +87,9 @@ int main(int argc, char** argv) {
   std::string mode = argv[1];
   for (int i = 1; i + 1 < argc; i++) if (!strcmp(argv[i], "--known")) g_known.push_back(argv[i + 1]);
   g_verbose = flag(argc, argv, "--verbose");
+#ifndef SIM_THREADS
   simmem::init();
+#endif
   simmem::g_on_fatal = on_fatal;
 
   if (mode == "rule") {
@@ -107,20 +111,27 @@ int main(int argc, char** argv) {
 
   if (mode == "replay") {
     if (argc < 3) return 2;
-    Plan p; std::string err;
-    if (!plan_load(argv[2], p, err)) { fprintf(stderr, "replay: %s\n", err.c_str()); return 2; }
-    g_prop = p.prop;
-    const Profile* pf = find_profile(p.prop);
-    if (!pf) { fprintf(stderr, "unknown property %s\n", p.prop.c_str()); return 2; }
+    std::vector<Plan> seq; std::string err;
+    if (!plan_load_seq(argv[2], seq, err)) { fprintf(stderr, "replay: %s\n", err.c_str()); return 2; }
     g_replay_mode = true;
-    g_cur_plan = &p;
-    static std::string propkeep; propkeep = p.prop;
-    simmem::g_fatal_ctx.prop = propkeep.c_str(); simmem::g_fatal_ctx.run = p.run;
+    static std::string propkeep;
     Outcome out;
-    pf->exec(p, out);
-    if (g_verbose) for (auto& t : out.obs_text) fprintf(stderr, "  %s\n", t.c_str());
-    for (auto& k : out.known) { printf("K {\"prop\":%s,\"run\":%llu,\"sig\":%s}\n", jstr(p.prop).c_str(), (unsigned long long)p.run, jstr(k).c_str()); }
-    if (out.violated) { emit_violation("O", p.run, out.vclass, out.site, out.op, out.detail, out.obs_hash); return 1; }
+    for (size_t pi = 0; pi < seq.size(); pi++) {
+      Plan& p = seq[pi];
+      g_prop = p.prop;
+      const Profile* pf = find_profile(p.prop);
+      if (!pf) { fprintf(stderr, "unknown property %s\n", p.prop.c_str()); return 2; }
+      g_cur_plan = &p;
+      propkeep = p.prop;
+      simmem::g_fatal_ctx.prop = propkeep.c_str(); simmem::g_fatal_ctx.run = p.run;
+      out = Outcome();
+      pf->exec(p, out);
+      if (g_verbose) for (auto& t : out.obs_text) fprintf(stderr, "  %s\n", t.c_str());
+      for (auto& k : out.known) { printf("K {\"prop\":%s,\"run\":%llu,\"sig\":%s}\n", jstr(p.prop).c_str(), (unsigned long long)p.run, jstr(k).c_str()); }
+      if (out.violated && pi + 1 < seq.size()) { fprintf(stderr, "note: earlier plan %zu of the history also violates (%s @ %s); continuing to the last one\n", pi, out.vclass.c_str(), out.site.c_str()); continue; }
+      if (out.violated) { emit_violation("O", p.run, out.vclass, out.site, out.op, out.detail, out.obs_hash); return 1; }
+    }
+    Plan& p = seq.back();
     printf("O {\"prop\":%s,\"run\":%llu,\"class\":\"none\",\"site\":\"\",\"op\":-1,\"detail\":\"\",\"hash\":\"%016llx\",\"executed\":%llu,\"skipped\":%llu}\n", jstr(p.prop).c_str(),
            (unsigned long long)p.run, (unsigned long long)out.obs_hash, (unsigned long long)out.ops_executed, (unsigned long long)out.ops_skipped);
     return 0;
@@ -151,7 +162,11 @@ int main(int argc, char** argv) {
     auto t0 = std::chrono::steady_clock::now();
     auto elapsed = [&] { return std::chrono::duration<double>(std::chrono::steady_clock::now() - t0).count(); };
     uint64_t nviol = 0;
+    std::vector<uint64_t> runlist;
+    if (const char* rl = arg(argc, argv, "--runs")) { const char* q = rl; while (*q) { runlist.push_back(strtoull(q, (char**)&q, 10)); if (*q == ',') q++; } }
+    size_t rli = 0;
     for (uint64_t i = first + w; i < maxruns; i += nw) {
+      if (!runlist.empty()) { if (rli >= runlist.size()) break; i = runlist[rli++]; }
       if ((g_stats.runs & 15) == 0 && elapsed() > seconds) break;
       if (g_status) { g_status[0] = i; g_status[1] = g_stats.runs; }
       Plan p;
